@@ -20,7 +20,7 @@ def run(ck):
     ck.rule = ("leg A: every value of ${a} over 12 character classes up to length VL (one state per value) x 60 templates x 2-3 "
                "environments x argument positions: Expansion!Bind = Binding!Sem; leg B: each emitted (written args, env) bound by the real "
                "run_instruction and by parse_text+run_script, received arguments compared with Sem; leg C: random Unicode templates bound by "
-               "run_instruction, validated by TLC. distinct_nontrivial = distinct (written args, env) cases with >=1 variable reference")
+               "run_instruction, validated by TLC. distinct_nontrivial = distinct (written args, env) cases with >=1 variable reference; leg D: the repository's own test scripts (/repo/test/**/*.ds) run on the real SDK behind a logging proxy; every direct invocation's received arguments are validated by RunLoop_Trace against Binding!Sem of the written arguments under the logged variables (R-level when the written text is inside the template syntax, Expansion!Bind otherwise: drift)")
     a = vlib.tlc("C02_MC", "C02_A2.cfg" if q else "C02_A3.cfg", wd, workers=8, timeout=3000, xmx="12g")
     ck.add_tlc(a, "A: values up to length %d" % (2 if q else 3))
     ck.cmds.append("tlc -config C02_A*.cfg C02_MC.tla; vh c02-replay; vh c02-record; tlc C02_Trace.tla")
@@ -53,5 +53,7 @@ def run(ck):
                      "written %r received %r expected %r" % ([vlib.uncps(w) for w in v["written"]], [vlib.uncps(w) for w in v["got"]], [vlib.uncps(w) for w in v["exp"]]), v)
     ck.drift += [{"written": [vlib.uncps(w) for w in d["written"]]} for d in drift[:10]]
     ck.notes["legC"] = {"bindings": n, "seed": ck.seed}
+    import runloop
+    runloop.leg(ck, "C02", sig_of)
     ck.assumptions += ["templates inside the property's domain only: literal text free of $ % and backslash; names free of white space, = and }",
                        "spread (%{name}) is a whole argument"]
